@@ -42,11 +42,10 @@ impl ExtendedTime {
         self.mins
     }
 
-    fn concrete(self, what: &str) -> i64 {
-        match self.mins.as_const() {
-            Some(n) => n,
-            None => panic!("vrt: unsupported {what} on a symbolic ExtendedTime"),
-        }
+    /// Accessors that return primitives concretise the minute count on this path (bisection over
+    /// 00:00..=48:00, forking over every feasible value).
+    fn concrete(self, _what: &str) -> i64 {
+        vrt::concretize(self.mins, 0, 2880)
     }
 
     pub fn hour(self) -> u8 {
